@@ -1,9 +1,10 @@
 (* Props/C14.v — property theorems only; proofs live in Proofs/C14Reader.v (reader refines a
    flat decoder), Proofs/C14Writer.v (what the writer emits), Proofs/C14Layout.v,
    Proofs/C14Roundtrip.v and Proofs/C14Double.v; the model is Model/Msg.v (+ Model/Double.v). *)
-From Coq Require Import List NArith ZArith Bool.
-From Cedar Require Import Lib.Bytes gen.Consts Model.Msg
-     Proofs.C14Reader Proofs.C14Writer Proofs.C14Layout Proofs.C14Roundtrip.
+From Coq Require Import List NArith ZArith Bool QArith.
+From Cedar Require Import Lib.Bytes gen.Consts Model.Msg Model.Double
+     Proofs.C14Reader Proofs.C14Writer Proofs.C14Layout Proofs.C14Roundtrip
+     Proofs.C14DoubleExact Proofs.C14Double.
 Import ListNotations.
 Local Open Scope Z_scope.
 
@@ -182,3 +183,82 @@ Proof.
   repeat constructor; cbn; try discriminate; intros; try discriminate;
     repeat constructor; try discriminate; reflexivity.
 Qed.
+
+(* ======================================================================== *)
+(* Doubles (Model/Double.v: PutDouble / GetDouble on Flocq binary64, 64-bit patterns in
+   and out).  The theorems below mention Flocq operations, whose definitions carry
+   proofs over Coq's real numbers: their Print Assumptions lists the axioms of the
+   Reals library.  Everything above this line is closed under the global context.   *)
+
+(* C14_double_layout: for EVERY 64-bit pattern (finite, subnormal, zero, infinite, NaN) and
+   from any writer state, PutDouble appends exactly sixteen bytes: the reference-format
+   integer [fmt_int] of fracInt followed by that of exp, where (fracInt, exp) =
+   double_ints = (int32(frexp-fraction * float64(2^31-1)), frexp-exponent), and both are
+   int32 values.                                                               *)
+Theorem C14_double_layout :
+  forall (w : writer) (bits : Z),
+    let fi := fst (double_ints (of_bits bits)) in
+    let e := snd (double_ints (of_bits bits)) in
+    content (put_double w bits) = content w ++ fmt_int fi ++ fmt_int e /\
+    - 2 ^ 31 <= fi < 2 ^ 31 /\ - 2 ^ 31 <= e < 2 ^ 31.
+Proof. exact double_layout. Qed.
+Print Assumptions C14_double_layout.
+
+(* the scaling constant regenerated from the source is the format's 2^31 - 1 *)
+Theorem C14_double_constant : Z.of_N FracConst = 2 ^ 31 - 1.
+Proof. exact FracConst_value. Qed.
+Print Assumptions C14_double_constant.
+
+(* GetDouble is independent of the framing: two honest readers holding the same
+   remaining bytes return the same result and leave the same bytes             *)
+Theorem C14_double_cut_independent :
+  forall (r1 r2 : reader),
+    wf r1 -> wf r2 -> remaining r1 = remaining r2 ->
+    snd (get_double r1) = snd (get_double r2) /\
+    remaining (fst (get_double r1)) = remaining (fst (get_double r2)).
+Proof. exact get_double_cut_independent. Qed.
+Print Assumptions C14_double_cut_independent.
+
+(* what PutDouble wrote, read back through ANY honest framing of the emitted bytes, is
+   double_of_ints (= ldexp(float64(fracInt)/float64(2^31-1), exp)) of exactly the two
+   integers double_ints produced: nothing is lost between writer and reader     *)
+Theorem C14_double_roundtrip_ints :
+  forall (bits : Z) (fs : list mframe),
+    frames_ok false fs ->
+    concat (map fst fs) = concat (map fst (w_out (finish (put_double writer_init bits)))) ->
+    snd (get_double (reader_of fs)) =
+    MOk (to_bits (double_of_ints (fst (double_ints (of_bits bits))) (snd (double_ints (of_bits bits))))).
+Proof. exact double_roundtrip_ints. Qed.
+Print Assumptions C14_double_roundtrip_ints.
+
+(* C14_double_precision_partial: the format's precision on the EXACT-RATIONAL reading.
+   A finite non-zero double is +-frac * 2^e with frac = m / 2^53, 2^52 <= m < 2^53.  If
+   the product frac * (2^31-1), the quotient k / (2^31-1) and the final scaling by 2^e
+   were computed exactly, the decoded fraction k/(2^31-1), k = trunc(frac * (2^31-1)),
+   satisfies 0 <= frac - k/c <= frac * 2^-30, i.e. |d - d'| <= |d| * 2^-30 (multiply by
+   +-2^e).  NOT proved: that the three floating-point roundings of the real computation
+   (the multiplication, the division, ldexp's rounding into the subnormal range) keep the
+   result within the same bound; the margin is about 2^-52 relative against roundings of
+   2^-53, and for subnormal results the final rounding adds up to half a unit in the last
+   place.  That part is covered by the bit-exact Flocq model in the correspondence run and
+   by the direct oracle (exact rational arithmetic) on the real code.  No axioms.    *)
+Theorem C14_double_precision_partial :
+  forall m : Z,
+    2 ^ 52 <= m < 2 ^ 53 ->
+    let frac := (m # 9007199254740992)%Q in
+    let k := (m * 2147483647) / 2 ^ 53 in
+    let back := (k # 2147483647)%Q in
+    (0 <= frac - back /\ frac - back <= frac * (1 # 1073741824))%Q.
+Proof. exact double_precision_exact_Q. Qed.
+Print Assumptions C14_double_precision_partial.
+
+(* the same over the integers, with the range of the transmitted fraction *)
+Theorem C14_double_precision_partial_Z :
+  forall m : Z,
+    2 ^ 52 <= m < 2 ^ 53 ->
+    let k := (m * 2147483647) / 2 ^ 53 in
+    2 ^ 30 - 1 <= k <= 2 ^ 31 - 2 /\
+    0 <= m * 2147483647 - k * 2 ^ 53 < 2 ^ 53 /\
+    (m * 2147483647 - k * 2 ^ 53) * 2 ^ 30 <= m * 2147483647.
+Proof. exact double_precision_exact. Qed.
+Print Assumptions C14_double_precision_partial_Z.
